@@ -1771,6 +1771,7 @@ func init() {
 	register("c.rawhold", rawHold)
 	register("c.rawframe", rawFrame)
 	register("c.rawdrop", rawDrop)
+	register("c.rawquit", rawQuit)
 	// c.rawint <m> <hex tok>...: a command whose reply is an integer
 	register("c.rawint", func(a []string) string {
 		m := cl.members[atoi(a[0])]
@@ -2021,6 +2022,38 @@ func rawDrop(a []string) string {
 		c.conn.Close()
 		delete(heldConns, a[0])
 		time.Sleep(300 * time.Millisecond)
+	}
+	return "ok"
+}
+
+// c.rawquit <name> <m>: the hand-written subscriber connection <name> (to member m) says QUIT: the member answers, hangs
+// up and forgets the connection's subscriptions (bounded settle wait, as after ps.close)
+func rawQuit(a []string) string {
+	hc := heldConns[a[0]]
+	if hc == nil {
+		return "ok"
+	}
+	svc := cl.members[atoi(a[1])].db.VerifInternals().PubSub
+	before := svc.VerifConnCount()
+	hc.conn.SetWriteDeadline(time.Now().Add(2 * time.Second))
+	if _, err := hc.conn.Write([]byte("*1\r\n$4\r\nQUIT\r\n")); err != nil {
+		return "neterr"
+	}
+	hc.conn.SetReadDeadline(time.Now().Add(3 * time.Second))
+	hungUp := false
+	for i := 0; i < 10000; i++ {
+		if _, err := readReply(hc.rd); err != nil {
+			hungUp = !strings.Contains(err.Error(), "timeout")
+			break
+		}
+	}
+	hc.conn.Close()
+	delete(heldConns, a[0])
+	if !hungUp {
+		return "no-hangup"
+	}
+	for i := 0; i < 200 && svc.VerifConnCount() >= before && before > 0; i++ {
+		time.Sleep(5 * time.Millisecond)
 	}
 	return "ok"
 }
